@@ -19,6 +19,17 @@ for n in range(1, 11):
 HARNESSES['cbr_rejects_bad_p_f64'] = ('statistics', 'complete', 'loop-free prefix; all f64 bit patterns outside (0,1) or non-finite; code after the assertion must be unreachable')
 HARNESSES['is_all_finite_2x2'] = ('levmar', 'bounded', '2 x 2 matrix, all f64 bit patterns, unwind 6')
 HARNESSES['to_vector_colmajor_3x2'] = ('levmar', 'bounded', '3 x 2 matrix, symbolic entries and position, unwind 8')
+HARNESSES['copy_matrix_to_column_2x3'] = ('levmar', 'bounded', '2 x 3 source (three right-hand sides) into a 6 x 2 target, symbolic entries and position, unwind 8')
+HARNESSES['concat_colwise_2x2_2x1'] = ('statistics', 'bounded', '2 x 2 and 2 x 1 operands, symbolic entries, unwind 6')
+HARNESSES['extract_range_1_3_of_4'] = ('statistics', 'bounded', 'range [1,3) of a 4-vector, symbolic entries, unwind 6')
+
+# bounded stand-ins for functions the extractor could not bring through (lost anchor): function id -> harnesses
+FALLBACK = {
+    'levmar.copy_matrix_to_column': ['copy_matrix_to_column_2x3'],
+    'util.to_vector': ['to_vector_colmajor_3x2', 'copy_matrix_to_column_2x3'],
+    'stats.concat_colwise': ['concat_colwise_2x2_2x1'],
+    'stats.extract_range': ['extract_range_1_3_of_4'],
+}
 
 
 def prepare(repo, scratch, modules):
